@@ -13,7 +13,9 @@ RULE = ("seeded programs of 1-4 activities each running `async for now in interv
         "of (event, time).")
 BUDGET = {"quick": {"cases": 60000, "wall_s": 100, "chunk": 250},
           "thorough": {"cases": 1200000, "wall_s": 1500, "chunk": 500}}
-ASSUMPTIONS = ["periods and durations are dyadic rationals, so the grid arithmetic is exact"]
+ASSUMPTIONS = ["periods and durations of the modelled programs are dyadic rationals, so the grid "
+               "arithmetic is exact; non-dyadic grids are checked by comparing tickers with "
+               "different bodies against each other (exact equality)"]
 LEVEL_TEXT = ("Exploration: the sequence of yielded times and of time.now at every iteration is "
               "compared with an arithmetic model (interval: start + k*p and IntervalExceeded "
               "exactly after a body longer than p; delay: body end + p; ValueError for p < 0), "
@@ -60,7 +62,78 @@ class TModel(C01.Model):
         return now
 
 
+def generate_twins(rng):
+    """Two tickers on the same (non-dyadic) grid whose bodies take different time: the grid must
+    not depend on the bodies - exact float equality, no arithmetic model needed."""
+    period = rng.choice([0.1, 0.3, 0.7, 1.1, 2.406, 3.3, 1 / 3])
+    start = rng.choice([0, -3.3, 0.1, 2.7, -0.7, 1e6 + 0.1])
+    n = rng.randint(2, 7)
+    fractions = [0.1, 0.25, 0.3, 0.37, 0.5, 0.73, 0.9]
+    actors = [{"name": "idle", "ops": [{"op": "ticker", "kind": "interval", "p": period,
+                                         "bodies": [rng.choice([0, "postpone"]) for _ in range(n)]}]}]
+    for i in range(rng.randint(1, 2)):
+        bodies = [period * rng.choice(fractions) if rng.random() < 0.8 else 0 for _ in range(n)]
+        actors.append({"name": "busy%d" % i, "ops": [{"op": "ticker", "kind": "interval",
+                                                       "p": period, "bodies": bodies}]})
+    rng.shuffle(actors)
+    return {"property": ID, "family": "twins",
+            "scenario": {"start": start, "resources": {}, "actors": actors},
+            "plan": [], "config": {"waitq": rng.choice(["heap", "sd"])}}
+
+
+def valid(case):
+    if case.get("family") != "twins":
+        return True
+    try:
+        counts = set()
+        for actor in case["scenario"]["actors"]:
+            (op,) = actor["ops"]
+            if op["op"] != "ticker" or op["kind"] != "interval" or op["p"] <= 0:
+                return False
+            if any(b not in (0, "postpone") and not 0 < b < op["p"] for b in op["bodies"]):
+                return False
+            counts.add((len(op["bodies"]), op["p"]))
+        return len(counts) == 1 and len(case["scenario"]["actors"]) >= 2
+    except (KeyError, TypeError, ValueError):
+        return False
+
+
+def check_twins(rec):
+    out = []
+    for rule, msg in rec.kernel_violations:
+        out.append({"rule": "C14/kernel:" + rule, "msg": msg})
+    if rec.outcome != ("ok",):
+        out.append({"rule": "C14/run-outcome", "msg": "run() ended with %r" % (rec.outcome,)})
+        return out
+    ticks = {}
+    for ev in rec.trace:
+        if ev[4] == "interval.tick":
+            ticks.setdefault(ev[3], []).append(ev[2])
+        elif ev[4] == "interval.exceeded":
+            out.append({"rule": "C14/spurious-exceeded", "msg": "%s: IntervalExceeded at t=%r "
+                        "although every body is shorter than the period" % (ev[3], ev[2])})
+    names = sorted(ticks)
+    n = len(rec.case["scenario"]["actors"][0]["ops"][0]["bodies"]) + 1
+    for name in names:
+        if len(ticks[name]) != n and not out:
+            out.append({"rule": "C14/grid", "msg": "%s ticked %d times, expected %d"
+                        % (name, len(ticks[name]), n)})
+    for name in names[1:]:
+        if ticks[name] != ticks[names[0]] and len(out) < 3:
+            k = next((i for i, (x, y) in enumerate(zip(ticks[name], ticks[names[0]])) if x != y),
+                     min(len(ticks[name]), len(ticks[names[0]])))
+            out.append({"rule": "C14/grid-depends-on-body", "msg":
+                        "interval(%r) from t=%r: tick %d of %s is at %r but of %s at %r - the "
+                        "grid depends on how long the bodies took" % (
+                            rec.case["scenario"]["actors"][0]["ops"][0]["p"],
+                            rec.case["scenario"].get("start", 0), k, name,
+                            ticks[name][k:k + 1], names[0], ticks[names[0]][k:k + 1])})
+    return out
+
+
 def generate(rng, tier):
+    if rng.random() < 0.1:
+        return generate_twins(rng)
     start = rng.choice(STARTS)
     actors = []
     serial = 0
@@ -130,6 +203,8 @@ def check(rec):
         if len(out) < 5:
             out.append({"rule": "C14/" + rule, "msg": msg})
 
+    if rec.case.get("family") == "twins":
+        return check_twins(rec)
     for rule, msg in rec.kernel_violations:
         bad("kernel:" + rule, msg)
     if rec.outcome != ("ok",):
@@ -183,6 +258,9 @@ def check(rec):
 
 
 def observe(rec):
+    if rec.case.get("family") == "twins":
+        sig = tuple(sorted((ev[3], ev[2]) for ev in rec.trace if ev[4] == "interval.tick"))
+        return {"stats": {"probe.twin-tickers": 1}, "signature": sig, "nontrivial": True}
     model = expected(rec.case["scenario"])
     per_actor = {}
     stats = {}
